@@ -454,6 +454,9 @@ pub fn panel() -> Vec<Shape> {
 
 impl Prop for RateHistory {
     type Case = History;
+    fn shrink_iters(&self) -> u32 {
+        300
+    }
     fn name(&self) -> &'static str {
         "rate-history"
     }
